@@ -706,5 +706,8 @@ def run(ctx: Ctx) -> None:
     ctx.attempt(rule_r4_keys, ctx)
     ctx.attempt(rule_r5_documents, ctx)
     ctx.attempt(rule_r6_concrete, ctx)
+    from . import layouttext
+
+    ctx.attempt(layouttext.rule_c08_r7, ctx)
     ctx.assume("the bit-length-set algebra is exact (C01); alignments are powers of two and the delimiter header is a multiple of the alignment (C02)")
     ctx.undecided("numerical equality of the offset sets with the encoder's positions (only the agreement of the traces / terms is decided)")
